@@ -332,3 +332,52 @@ def int_type_given_other_python_value_twin(f: float) -> bool:
 
 
 LAST_DETAIL = None
+
+
+# ------------------------------------------------------------------ enumeration-typed attributes: reading the written form
+import importlib  # noqa: E402
+
+from pptx.enum.base import BaseXmlEnum  # noqa: E402
+
+XENUMS = []
+for _mn in ["pptx.enum.action", "pptx.enum.chart", "pptx.enum.dml", "pptx.enum.lang", "pptx.enum.shapes", "pptx.enum.text"]:
+    _mod = importlib.import_module(_mn)
+    for _n, _c in sorted(vars(_mod).items()):
+        if isinstance(_c, type) and issubclass(_c, BaseXmlEnum) and _c is not BaseXmlEnum and _c.__module__ == _mn and _c.__name__ == _n:
+            if [m for m in _c if m.xml_value]:
+                XENUMS.append(_c)
+XENUM_MEMBERS = {c.__name__: [m for m in c if m.xml_value] for c in XENUMS}
+MAX_MEMBERS = max(len(v) for v in XENUM_MEMBERS.values())
+
+
+@cond(timeout=600, encodes=["pptx.enum.base:BaseXmlEnum.from_xml", "pptx.enum.base:BaseXmlEnum.to_xml", "pptx.enum.base:BaseXmlEnum.validate"],
+      bound="every XML-mapped member of every BaseXmlEnum (enumeration and member index are choice variables: exhaustive), listed known "
+            "findings (members sharing a token with an earlier member) excluded: the written form reads back as the member written, and a "
+            "value that is not a member is rejected by validate()")
+def enum_written_form_reads_back(e: int, i: int) -> bool:
+    """
+    pre: 0 <= e < len(XENUMS) and 0 <= i < MAX_MEMBERS
+    post: _
+    """
+    cls = choose(XENUMS, e)
+    ms = XENUM_MEMBERS[cls.__name__]
+    if i >= len(ms):
+        return True
+    m = ms[i]
+    if excluded("enum_written_form_reads_back", enum=cls.__name__, member=m.name):
+        return True
+    s = cls.to_xml(m)
+    try:
+        cls.validate(s)  # a token string is not a member
+        return False
+    except (TypeError, ValueError):
+        pass
+    cls.validate(m)
+    return isinstance(s, str) and s != "" and cls.from_xml(s) is m
+
+
+def enum_dup_witness(enum, member):
+    """Replay of the listed known findings C11-enum-dup-* (returns False while they reproduce)."""
+    cls = [c for c in XENUMS if c.__name__ == enum][0]
+    m = cls[member]
+    return cls.from_xml(cls.to_xml(m)) is m
